@@ -46,30 +46,30 @@ type Safety struct {
 	incStatus map[string]StatusInfo // "node/inc" -> last status (monotonicity inside an incarnation)
 
 	// clients
-	invokes  map[int]*Event
-	acks     []ackRec // acknowledged writes in return order
-	reads    []readRec
-	okWrites map[int]ClientInfo
+	invokes           map[int]*Event
+	acks              []ackRec // acknowledged writes in return order
+	reads             []readRec
+	okWrites          map[int]ClientInfo
 	lastStatus        map[string]StatusInfo
 	memberPending     map[int]*memberReq
 	memberAwaitAppend map[string]int
-	memberOK []*Event
+	memberOK          []*Event
 
 	// snapshots
-	openRecv   map[string]*recvFile // node -> snapshot file being received
-	mixedFiles map[int]string       // file id -> description of the foreign chunk it accepted
+	openRecv   map[string]*recvFile        // node -> snapshot file being received
+	mixedFiles map[int]string              // file id -> description of the foreign chunk it accepted
 	inflightIS map[string]map[int]*MsgInfo // node -> InstallSnapshot requests being handled
-	localSnaps map[string]bool // "index/term/len/hash" produced locally
+	localSnaps map[string]bool             // "index/term/len/hash" produced locally
 	snapFiles  []*Event
 	restores   []*Event
 
 	// lease reads (C17)
-	ld       int64 // lease duration in ns, from the header event
-	replies  map[string][]replyRec
-	confs    map[string]*ConfInfo
-	confHist map[string][]*ConfInfo
-	confTimes map[string][]confAt
-	grants   map[string]map[string]bool // "candidate/term" -> voters whose granted real vote reached it
+	ld           int64 // lease duration in ns, from the header event
+	replies      map[string][]replyRec
+	confs        map[string]*ConfInfo
+	confHist     map[string][]*ConfInfo
+	confTimes    map[string][]confAt
+	grants       map[string]map[string]bool // "candidate/term" -> voters whose granted real vote reached it
 	pendingElect []electRec
 
 	// config
